@@ -60,6 +60,11 @@ func (o *ObsC01) check(x *Exec, quiescent bool) *vcore.Failure {
 	holder := map[string]*PodRec{}
 	for _, p := range live {
 		for _, ip := range p.Payload {
+			if x.everDropped(ip) {
+				// an administrator removed this IP from the configuration while it was in use (and may have put it back): the
+				// allocation was dropped on purpose (C09), what happens to the IP afterwards is outside this property
+				continue
+			}
 			if q, dup := holder[ip]; dup && q != p {
 				return vcore.Failf("c01:two_live_pods", "IP %s was handed to two live pods: %s (uid %s) and %s (uid %s)", ip, q.Name,
 					q.UID, p.Name, p.UID)
